@@ -88,6 +88,18 @@ func NewDirective(config DirectiveConfig) *Directive {
 		if dir.err = invariantf(argConfig != nil, `@%v args must be an object with argument names as keys.`, config.Name); dir.err != nil {
 			return dir
 		}
+		if dir.err = invariantf(
+			!isNilType(argConfig.Type),
+			`@%v(%v:) argument type must be Input Type but got: %v.`, config.Name, argName, nil,
+		); dir.err != nil {
+			return dir
+		}
+		if dir.err = invariantf(
+			IsInputType(argConfig.Type),
+			`@%v(%v:) argument type must be Input Type but got: %v.`, config.Name, argName, argConfig.Type,
+		); dir.err != nil {
+			return dir
+		}
 		args = append(args, &Argument{
 			PrivateName:        argName,
 			PrivateDescription: argConfig.Description,
